@@ -401,7 +401,8 @@ where
             .get(index as usize)
             .ok_or(VhostUserError::InvalidParam)?;
 
-        if num == 0 || num as usize > self.max_queue_size {
+        // The queue silently keeps its previous size if asked for one that is not a power of two.
+        if num == 0 || num as usize > self.max_queue_size || !num.is_power_of_two() {
             return Err(VhostUserError::InvalidParam);
         }
         vring.set_queue_size(num as u16);
